@@ -479,6 +479,21 @@ def job_random_circuits(tier, rng, n, count):
                sample=dict(n=n, gates=[(g.name, repr(i)) for g, i in _random_circuit(np.random.default_rng(0), n, 3)[0].gate_index_list]))]
 
 
+def job_mixed_sizes(tier, rng):
+    """histories: circuits on different numbers of qubits are built and run in ONE process, interleaved (4, 2, 3, 5, 2, 4, ...): the result for one size must not depend on
+    what was simulated before (index tables memoised with too coarse a key, state left behind)."""
+    out = []
+    for rep in range(2):
+        for n in (4, 2, 3, 5, 2, 4, 3):
+            r = job_random_circuits(tier, rng, n, 4)[0]
+            out.append(r)
+    bad = next((r for r in out if r['verdict'] != 'pass'), None)
+    return [ob(f'{PROP}.random_circuits.mixed_sizes_in_one_process', 'pass' if bad is None else 'refuted', tier='B', backend='native',
+               functions=['numqi.sim.circuit:Circuit', 'numqi.sim.state:apply_gate', 'numqi.sim.state:apply_control_n_gate'],
+               evaluations=sum(r['evaluations'] for r in out), distinct_nontrivial=sum(r['distinct_nontrivial'] for r in out), witness=None if bad is None else bad.get('witness'),
+               native=dict(confirmed=bad is not None))]
+
+
 def job_gate_matrices(tier, rng):
     """parametrised gate matrices for SYMBOLIC angles (trig normal form, c^2+s^2=1): equal to their textbook closed forms and unitary for every angle; the fixed gates exactly"""
     import numqi.gate._internal as GI
@@ -748,6 +763,7 @@ def jobs(tier):
     for n in ([1, 2, 3, 4] if tier == 'quick' else [1, 2, 3, 4, 5, 6]):
         J.append(('job_random_circuits', dict(n=n, count=25 if tier == 'quick' else 80)))
     J.append(('job_custom_gate', {}))
+    J.append(('job_mixed_sizes', {}))
     return J
 
 
